@@ -131,7 +131,7 @@ def _table(wd, shard, ctx, res, only):
                     dev = abs(float(Fraction(int(d[c])) - exact))
                     lim = 0.5 + 1e-3 * (1 + abs(int(d[c])))
                     worst = max(worst, dev / lim)
-                    if dev > lim:
+                    if not (dev <= lim):
                         bad = (c, int(d[c]), float(exact))
                 res.maximum("table_dev_over_limit", worst)
                 if bad:
